@@ -347,11 +347,11 @@ func (s *sched) runThreads(bodies []func()) {
 // ---------------------------------------------------------------------------
 
 var (
-	c12Ch    = &chooser{}
-	c12Pool  = &poolCtl{ch: c12Ch, s: c12Sched}
-	c12Refs  []string // references of the active configuration
+	c12Ch                      = &chooser{}
+	c12Pool                    = &poolCtl{ch: c12Ch, s: c12Sched}
+	c12Refs                    []string // references of the active configuration
 	c12RefsNoHook, c12RefsHook []string
-	c12Setup sync.Once
+	c12Setup                   sync.Once
 )
 
 func c12Init() {
@@ -456,18 +456,18 @@ func runHistory(path []c12Step, last int, lastPrefix []int) (fail string, key st
 }
 
 type c12Stats struct {
-	Executions   int64    `json:"executions"`
-	States       int64    `json:"states"`
-	Transitions  int64    `json:"transitions"`
-	Recycled     int64    `json:"gets_served_by_recycled_printer"`
-	Fresh        int64    `json:"gets_served_by_new_printer"`
-	Points       int64    `json:"scheduling_points"`
-	Violations   []string `json:"violations"`
-	Cases        []json.RawMessage `json:"cases"`
-	Exhaustive   bool     `json:"exhaustive"`
-	BudgetDone   int      `json:"deviation_budget_completed"`
-	Sample       string   `json:"sample"`
-	Keys         []string `json:"-"`
+	Executions  int64             `json:"executions"`
+	States      int64             `json:"states"`
+	Transitions int64             `json:"transitions"`
+	Recycled    int64             `json:"gets_served_by_recycled_printer"`
+	Fresh       int64             `json:"gets_served_by_new_printer"`
+	Points      int64             `json:"scheduling_points"`
+	Violations  []string          `json:"violations"`
+	Cases       []json.RawMessage `json:"cases"`
+	Exhaustive  bool              `json:"exhaustive"`
+	BudgetDone  int               `json:"deviation_budget_completed"`
+	Sample      string            `json:"sample"`
+	Keys        []string          `json:"-"`
 }
 
 func historiesBFS(first []int, depth int, hook bool, deadline func() bool) c12Stats {
